@@ -5,7 +5,7 @@ import math
 
 import numpy as np
 
-from ..core import fb, fbs, unfb, close, allclose, fingerprint
+from ..core import fb, fbs, unfb, close, allclose, fingerprint, safe_oracle
 
 METHODS = ["midpoint", "trapezoid", "simpson", "gl", "cc"]
 DEGREE = {"midpoint": lambda n: 1, "trapezoid": lambda n: 1, "simpson": lambda n: 3,
@@ -17,6 +17,7 @@ def _quad(n, a, b, method):
     return quadrature(n, a, b, method=method)
 
 
+@safe_oracle
 def oracle_rule(args):
     """nodes distinct, increasing, inside [a,b]; weights positive, sum b-a; exact for polynomials up to the rule's
     degree (tested on the powers of the normalised variable t=(2x-a-b)/(b-a), 60-digit arithmetic)"""
@@ -58,6 +59,7 @@ def oracle_rule(args):
         {"sum_w": span, "degree": deg}, "%s n=%d on [%r,%r]: %s" % (method, n, a, b, "; ".join(problems[:2]) or "ok")
 
 
+@safe_oracle
 def oracle_stack(args):
     """from_quadrature(nsamples).unravel(): points = Cartesian product of the per-level nodes on [0,1],
     weights = products of the per-level weights, total weight 1"""
